@@ -33,7 +33,7 @@ SameNonce ==
   /\ \E k \in 1..sent, dts \in {0, 1} : Step([op |-> "samenonce", k |-> k, dts |-> dts])
   /\ UNCHANGED <<sent, reloads, elapsed>>
 Burst ==
-  /\ \E k \in 1..(sent + 1) : k <= MaxSent /\ Step([op |-> "burst", k |-> k, m |-> 4])
+  /\ \E k \in 1..(sent + 1) : k <= MaxSent /\ Step([op |-> "burst", k |-> k, m |-> 8])
   /\ sent' = (IF sent < MaxSent THEN sent + 1 ELSE sent)
   /\ UNCHANGED <<reloads, elapsed>>
 Other ==
@@ -58,7 +58,7 @@ Grid ==
            tb   == IF b = 0 THEN <<>> ELSE <<[op |-> "tick", d |-> b]>>
            fin  == IF tail = "replay" THEN <<[op |-> "replay", k |-> 1]>>
                    ELSE IF tail = "samenonce" THEN <<[op |-> "samenonce", k |-> 1, dts |-> 0]>>
-                   ELSE <<[op |-> "burst", k |-> 1, m |-> 4]>>
+                   ELSE <<[op |-> "burst", k |-> 1, m |-> 8]>>
            h    == pre \o ta \o rl \o tb \o fin \o <<[op |-> "replay", k |-> 1]>>
        IN hist' = h /\ Emit(h)
   /\ sent' = 9 /\ reloads' = 9 /\ elapsed' = 99999
